@@ -6,7 +6,7 @@
    Memory safety proper (use-after-free, out-of-bounds) is a property of the C++ run time and is NOT
    stated here; the in-bounds / liveness preconditions of every call appear as [op_struct_pre]. *)
 From Coq Require Import List NArith Arith Bool.
-From Gatery Require Import WfDefs WfLemmas WfViews WfEdges WfOps WfMain WfCheck WfExamples.
+From Gatery Require Import WfDefs WfLemmas WfViews WfEdges WfOps WfMain WfCheck WfDrivers WfExamples.
 Import ListNotations.
 
 (* ---- the list idiom every erase in the code base uses ---- *)
@@ -171,3 +171,59 @@ Theorem nothing_dangles : forall g, Inv g ->
   (forall c a, In a (clocked g c) -> clk_validb g a = true /\ clk_of g a = Some c).
 Proof. exact no_dangling. Qed.
 Print Assumptions nothing_dangles.
+
+(* ---- clause (vii): a clock and its logic driver nodes name each other ---- *)
+
+(* Clock::m_clockDriver = n  <->  n is a live Node_Signal2Clk whose clock port is this clock (same for the reset
+   driver): no dangling driver, no driver registered with another clock, no stale second driver *)
+Theorem clock_and_driver_name_each_other : forall g, drivers_ok g ->
+  (forall c n, clkdrv g c = Some n <-> (liveb g n = true /\ role_of g n = 1%N /\ clk_of g (n, 0) = Some c)) /\
+  (forall c n, rstdrv g c = Some n <-> (liveb g n = true /\ role_of g n = 2%N /\ clk_of g (n, 0) = Some c)).
+Proof. exact clock_driver_agree. Qed.
+Print Assumptions clock_and_driver_name_each_other.
+
+(* Clock::setLogicClockDriver / setLogicResetDriver, including the REPLACEMENT of an existing driver (the old one is
+   un-bound, the new one bound) and re-binding the current driver *)
+Theorem setLogicDriver_preserves_drivers : forall which g c n,
+  Inv g -> drivers_ok g -> op_struct_pre g (OSetDriver which c n) = true ->
+  drivers_ok (setLogicDriver which g c n).
+Proof. exact setLogicDriver_drivers. Qed.
+Print Assumptions setLogicDriver_preserves_drivers.
+
+Example setLogicDriver_hyps_satisfiable :
+  let g := run ex_g0 (firstn 5 ex_drv_ops) in
+  Inv g /\ drivers_ok g /\ rstdrv g 0 = Some 6%N /\ op_struct_pre g (OSetDriver false 0 7) = true /\
+  rstdrv (setLogicDriver false g 0 7) 0 = Some 7%N /\ clk_of (setLogicDriver false g 0 7) (6%N, 0) = None.
+Proof.
+  assert (H : InvD (run ex_g0 (firstn 5 ex_drv_ops))) by (apply invd_check_reflect; vm_compute; reflexivity).
+  split; [apply H|]. split; [apply H|]. vm_compute. repeat split; reflexivity.
+Qed.
+
+(* every operation / every sequence, all seven clauses *)
+Theorem op_preserves_InvD : forall g o, InvD g -> op_pre g o = true -> InvD (exec g o).
+Proof. exact exec_preserves_InvD. Qed.
+Print Assumptions op_preserves_InvD.
+
+Theorem ops_preserve_InvD : forall ops g, InvD g -> InvD (run g ops).
+Proof. exact run_preserves_InvD. Qed.
+Print Assumptions ops_preserve_InvD.
+
+Theorem reachable_graphs_satisfy_all_clauses : forall ops, InvD (run empty_graph ops).
+Proof. exact reachable_InvD. Qed.
+Print Assumptions reachable_graphs_satisfy_all_clauses.
+
+(* the checker run on the dumps *)
+Theorem invd_check_reflect : forall g, invd_check g = true <-> InvD g.
+Proof. exact WfDrivers.invd_check_reflect. Qed.
+Print Assumptions invd_check_reflect.
+
+Theorem wfd_check_reflect : forall g, wfd_check g = true <-> Inv g /\ AllGrouped g /\ drivers_ok g.
+Proof. exact WfDrivers.wfd_check_reflect. Qed.
+Print Assumptions wfd_check_reflect.
+
+(* the half-renamed setLogicResetDriver (un-binds the clock driver instead of the old reset driver) passes clauses
+   (i)-(vi) and is rejected by clause (vii) *)
+Example half_renamed_reset_driver_rejected :
+  let g := run ex_g0 (firstn 5 ex_drv_ops) in
+  inv_check (buggy_setLogicResetDriver g 0 7) = true /\ invd_check (buggy_setLogicResetDriver g 0 7) = false.
+Proof. vm_compute. split; reflexivity. Qed.
